@@ -36,8 +36,9 @@ ASSUMPTIONS = [
     'switched unless set_outputs / set_administration / copy came later '
     '(documented resets)',
     'histories whose semantics the documentation leaves open are not '
-    'generated: a route change after renaming, set_outputs after renaming '
-    'outputs, the depot as selected output',
+    'generated: a route change after renaming, the depot as selected output '
+    '(set_outputs after renaming outputs: names of de-selected outputs are '
+    'dropped, as a fresh model would show them)',
     'reference integrator behind myokit.Simulation (DESIGN 2.2)',
 ]
 ANCHORS = [
@@ -236,11 +237,16 @@ def apply(ctx, rng, tg, m, st, op, side, hist):
         m.set_dosing_regimen(**REGS[op[1]])
         st.reg = op[1]
     elif k == 'out':
-        if st.onames:
-            return None
+        # outputs may be addressed by their original or by their current
+        # (renamed) name; names of outputs that are de-selected are dropped
+        # (a fresh model that selects them again shows the original name)
         names = list(tg.outs[op[1]])
+        if st.onames and rng.random() < 0.5:
+            names = [st.onames.get(n, n) for n in names]
         m.set_outputs(names)
         st.outs = op[1]
+        st.onames = {k_: v for k_, v in st.onames.items()
+                     if k_ in tg.outs[op[1]]}
         st.sens = False
     elif k == 'sens':
         m.enable_sensitivities(op[1])
